@@ -81,11 +81,9 @@ MUTANTS = [
      "            await_awaitable(self.async_unregister_service(info)),\n            self.loop,",
      "            self.async_unregister_service(info),\n            self.loop,"),
     ("c09-default-host-before-rename", "C09", "_core.py",
-     "        await self.async_check_service(info, allow_name_change, cooperating_responders, strict)
-",
-     "        info.set_server_if_missing()
-        await self.async_check_service(info, allow_name_change, cooperating_responders, strict)
-"),
+     "        await self.async_check_service(info, allow_name_change, cooperating_responders, strict)\n",
+     "        info.set_server_if_missing()\n"
+     "        await self.async_check_service(info, allow_name_change, cooperating_responders, strict)\n"),
     ("c10-kept-query-keeps-old-ttl", "C10", "_services/browser.py",
      "                current.ttl = int(pointer.ttl) if isinstance(pointer.ttl, float) else pointer.ttl\n"
      "                current.expire_time_millis = pointer.get_expiration_time(100)\n", ""),
